@@ -174,7 +174,15 @@ func multi(t []string) core.Result {
 				hA.line += " [close/header differ]"
 			}
 		}
-		d := forwardedDiff(h.a.Req, outA.Bytes(), outB.Bytes(), werrA, werrB)
+		var d string
+		if h.a.Req {
+			d = headerValuesDiff(h.reqA.Header, h.reqB.Header)
+		} else {
+			d = headerValuesDiff(h.resA.Header, h.resB.Header)
+		}
+		if d == "" {
+			d = forwardedDiff(h.a.Req, outA.Bytes(), outB.Bytes(), werrA, werrB)
+		}
 		if d == "" {
 			d = hA.diff(hB)
 		}
@@ -462,7 +470,7 @@ func multiCases(r *core.Rand, tier string, emit func([]string)) {
 		for i := 0; i < k; i++ {
 			s := msggen.Gen(r, r.Bool(), max)
 			a := s.Abs()
-			mode, link := "p", -1
+			mode, link := r.Pick("p", "p", "p", "l"), -1
 			if !a.Req && r.Bool() {
 				for j := i - 1; j >= 0; j-- {
 					if ms[j].Req {
